@@ -56,7 +56,7 @@ def run(ctx, report: Report) -> None:
         return v
 
     # ---- R4 ----------------------------------------------------------------------------------------------
-    r4 = report.rule('C11-R4', 'util.lower folds exactly A-Z', floor=66)
+    r4 = report.rule('C11-R4', 'util.lower folds exactly A-Z', floor=33)
     bad = None
     probes = [chr(c) for c in range(128)] + ['\xc9', 'İ', 'K', 'Σ', '\U0001d400']
     try:
@@ -75,7 +75,7 @@ def run(ctx, report: Report) -> None:
                      f'exactly A-Z to a-z and leave every other character alone')
 
     # ---- R1 ----------------------------------------------------------------------------------------------
-    r1 = report.rule('C11-R1', 'name comparison follows the document type', floor=85)
+    r1 = report.rule('C11-R1', 'name comparison follows the document type', floor=42)
     _, tagname = src.func('css_match.CSSMatch.match_tagname')
     _, get_tag = src.func('css_match.CSSMatch.get_tag')
     _, gtn = src.func('css_match._DocumentNav.get_tag_name')
@@ -178,7 +178,7 @@ def run(ctx, report: Report) -> None:
                                  f'{q} looks up the attribute {v!r}; HTML lookups compare against the lower-cased document name')
 
     # ---- R2 (tables by partial evaluation of parse_attribute_selector and match_attributes) -----------------
-    r2 = report.rule('C11-R2', 'the type attribute: flag table and case-sensitive twin', floor=200)
+    r2 = report.rule('C11-R2', 'the type attribute: flag table and case-sensitive twin', floor=100)
     from .sem import attribute_patterns, helper_tables
     I, S = int(re.I), int(re.S)
     bad = None
@@ -211,7 +211,7 @@ def run(ctx, report: Report) -> None:
     r2.findings[n0:] = [f for f in r2.findings[n0:] if 'match_attributes' in f.key]
 
     # ---- R3 ----------------------------------------------------------------------------------------------
-    r3 = report.rule('C11-R3', 'HTML-only pseudo-classes never match in non-HTML XML', floor=9)
+    r3 = report.rule('C11-R3', 'HTML-only pseudo-classes never match in non-HTML XML', floor=4)
     _, ms = src.func('css_match.CSSMatch.match_selectors')
     html_var = None
     for st in ms.body:
